@@ -12,6 +12,7 @@ def cfgs(ctx, for_prop='C02'):
         J.append({'mod': MOD, 'fn': 'cost_volume', 'mode': 'sym', 'args': kw})
     cvj(); cvj(masks=False, dmin=-2, dmax=0); cvj(method='ssd', ws=1, H=2, W=4); cvj(method='census', masks=False, H=3, W=5)
     cvj(grids=True, masks=False); cvj(ws=1, H=2, W=4, dmin=0, dmax=2); cvj(col0=3, masks=False)
+    cvj(grids='frac', masks=True, H=3, W=5, dmin=-2, dmax=1)       # non-integer grid values (half samples)
     cvj(bands=['r', 'g'], band='g', masks=False, H=3, W=5)
     cvj(bands=['r', 'g'], rbands=['g', 'r'], band='g', masks=False, H=3, W=5, method='census')     # band order differs between the images
     cvj(bands=['r', 'g'], rbands=['g', 'r'], band='r', masks=False, H=3, W=4, dmin=0, dmax=1)
